@@ -241,6 +241,46 @@ def checkB (G : Grammar) (nTerms nRules : Nat) (T : Tables) (cert : Array (List 
   hasItem (itemsOf cert 0) ⟨0, 0, 0⟩ &&
   (List.range cert.size).all fun s => stateB G nTerms nRules F T cert s
 
+/-! ### The soundness half alone (`Safe`), for tables whose conflicts were resolved by precedence
+
+For grammars with `@left/@right` the generator deletes actions, so the completeness conditions
+(`Valid`) cannot hold; `Safe` still does, and gives: whatever is accepted is a sentence, with the
+returned tree as a derivation tree. -/
+
+def itemSafeB (G : Grammar) (T : Tables) (s : Nat) (it : Item) : Bool :=
+  match G.prods[it.p]? with
+  | none => false
+  | some pr =>
+    (it.d != 0 || it.p == 0 ||
+      match find T.gotos (s : Int) (pr.lhs : Int) with
+      | .hit _ => true
+      | _ => false) &&
+    (!(it.p == 0 && it.d == 0) || s == 0) && (s != 0 || it.d == 0)
+
+def stateSafeB (G : Grammar) (nTerms nRules : Nat) (T : Tables) (cert : Array (List Item))
+    (s : Nat) : Bool :=
+  (itemsOf cert s).all (fun it => itemSafeB G T s it) &&
+  (match rowOf T.actions (s : Int) with
+  | none => false
+  | some row => nodupKeys row && row.all fun e => actEntryB G nTerms cert s e.1 e.2) &&
+  (match rowOf T.gotos (s : Int) with
+  | none => false
+  | some row => nodupKeys row && row.all fun e => gotoEntryB G nRules cert s e.1 e.2)
+
+def checkSafeB (G : Grammar) (nTerms nRules : Nat) (T : Tables) (cert : Array (List Item)) :
+    Bool :=
+  prod0B G && prodsB G nTerms nRules T && decide (0 < cert.size) &&
+  (List.range cert.size).all fun s => stateSafeB G nTerms nRules T cert s
+
+/-- The soundness-only validator (sound by `Lox.LR.checkSafe_sound`). -/
+def checkSafe (G : Grammar) (nTerms nRules : Nat) (T : Tables) (cert : Array (List Item)) :
+    Except String Unit :=
+  if checkSafeB G nTerms nRules T cert then .ok ()
+  else
+    .error (match (List.range cert.size).find? fun s => !stateSafeB G nTerms nRules T cert s with
+      | some s => "safe: state " ++ toString s
+      | none => "safe: grammar/_rules/_termCounts")
+
 /-- No state has an action on the ERROR terminal (the grammar does not use `@error`), so the
 generated `_recover` can never resume. -/
 def NoErrorActions (T : Tables) (nStates : Nat) : Prop :=
